@@ -92,6 +92,9 @@ def main(argv=None):
                 f = getattr(m, nm, None)
                 if f is not None:
                     env.stub(f, impl)
+            f = getattr(m, "half_up_int", None)
+            if f is not None and getattr(f, "__module__", "").startswith("contracts.") and hasattr(env, "half_up_int"):
+                env.stub(f, env.half_up_int)
             f = getattr(m, "itoa", None)
             if f is not None and getattr(f, "__module__", "").startswith("contracts."):
                 env.stub(f, lambda it, n: env.int_to_str(it, n) if not isinstance(n, int) else str(n))
